@@ -1,5 +1,5 @@
 From Coq Require Import ExtrOcamlBasic NArith List.
-From LLRP Require Import Driver.Supervisor Driver.Registry Driver.SupervisorFlight Driver.RegistrySplit.
+From LLRP Require Import Driver.Supervisor Driver.Registry Driver.SupervisorFlight Driver.RegistrySplit Driver.AddrUpdate.
 Extraction Language OCaml.
 Extraction "model.ml" init step run log dial_enabled quiescent poisoned handshake_ok
   connected stopped isUp lcl cur_addr max_conn_attempts max_send_attempts try_send
@@ -7,4 +7,5 @@ Extraction "model.ml" init step run log dial_enabled quiescent poisoned handshak
   rinit rstep rrun managed supervisors flags_found flags_repaired next
   finit fstep frun flags_tree fdial_enabled f_isUp f_conn f_pending f_stopped f_busy f_arm f_flight f_edgex f_log
   fconns fdials ffails_since_up
-  sinit sstep srun sbase rm.
+  sinit sstep srun sbase rm
+  aflags_tree update_device next_dial bounces stored managed_a.
